@@ -57,6 +57,22 @@ func gen(r *lib.Rand, tier, stream string, i int) History {
 		{{1, 2, 3, 4}, {1, 2, 3, 4}},
 	}
 	var h History
+	if stream == "bulk" {
+		// one transaction carrying several hundred byte-identical records (ids then differ only in
+		// the counter, over more than one byte of it), then ordinary traffic
+		nb := 257 + r.Intn(80)
+		if tier == "thorough" {
+			nb = 257 + r.Intn(400)
+		}
+		var ms []Msg
+		who := r.Intn(3)
+		for j := 0; j < nb; j++ {
+			ms = append(ms, Msg{Creator: who, Contents: pool[0]})
+		}
+		h.Steps = append(h.Steps, Step{Msgs: ms, NoTx: r.Chance(1, 2)}, Step{Block: true},
+			Step{Msgs: []Msg{{Creator: who, Contents: pool[0]}}}, Step{Block: true})
+		return h
+	}
 	if stream == "wrap" {
 		h.Counter0 = uint32(4294967296 - int64(1+r.Intn(6)))
 	}
